@@ -209,6 +209,37 @@ class Drillhole(Points):
 
         return None
 
+    def copy(
+        self,
+        parent=None,
+        copy_children: bool = True,
+        clear_cache: bool = False,
+        mask: np.ndarray | None = None,
+        **kwargs,
+    ):
+        """
+        Sub-class extension of :func:`~geoh5py.objects.points.Points.copy`.
+
+        The copy keeps the end of hole and looks up its own depth data.
+        """
+        omit_list = list(kwargs.pop("omit_list", []))
+        if not hasattr(self, "concatenator"):
+            omit_list.append("_depths")
+
+        new_entity = super().copy(
+            parent=parent,
+            copy_children=copy_children,
+            clear_cache=clear_cache,
+            mask=mask,
+            omit_list=omit_list,
+            **kwargs,
+        )
+
+        if new_entity is not None and "end_of_hole" not in kwargs:
+            new_entity.end_of_hole = self.end_of_hole
+
+        return new_entity
+
     def copy_from_extent(
         self,
         extent: np.ndarray,
